@@ -166,11 +166,18 @@ class TocFetcher:
     def _new_packet_cb(self, packet):
         """Handle a newly arrived packet"""
         chan = packet.channel
-        if (chan != 0):
+        if (chan != 0 or len(packet.data) < 1):
             return
+        # Only a reply to the request that is pending is of interest: the
+        # channel also carries replies that are left over from an earlier
+        # session (and late copies of the info reply), they must neither be
+        # read as the info reply nor as an element
+        cmd = packet.data[0]
         payload = packet.data[1:]
 
         if (self.state == GET_TOC_INFO):
+            if cmd != (CMD_TOC_INFO_V2 if self._useV2 else CMD_TOC_INFO):
+                return
             if self._useV2:
                 [self.nbr_of_items, self._crc] = struct.unpack(
                     '<HI', payload[:6])
@@ -198,6 +205,8 @@ class TocFetcher:
         elif (self.state == GET_TOC_ELEMENT):
             # Always add new element, but only request new if it's not the
             # last one.
+            if cmd != (CMD_TOC_ITEM_V2 if self._useV2 else CMD_TOC_ELEMENT):
+                return
             if self._useV2:
                 ident = struct.unpack('<H', payload[:2])[0]
             else:
